@@ -437,14 +437,19 @@ impl<S: PageSize> Iterator for PageRangeInclusive<S> {
         if self.start <= self.end {
             let page = self.start;
 
-            // If `start` is the last page of the lower or of the higher half, there is no next
-            // page to step to: incrementing start would leave the canonical address space (or
-            // overflow). `start` is then necessarily the last page of the range, so we make the
-            // range empty by decrementing end instead.
-            let next_addr = self.start.start_address().as_u64().checked_add(S::SIZE);
-            match next_addr.map(VirtAddr::try_new) {
-                Some(Ok(addr)) => self.start = Page::containing_address(addr),
-                _ => self.end -= 1,
+            // Every item but the last is followed by another page of the range, so `start` is
+            // simply incremented (for a range whose bounds lie in different halves this panics
+            // at the non-canonical gap, as it always did). After the last item the range has to
+            // become empty, but `start` cannot be incremented if it is the last page of the lower
+            // or of the higher half; `end` is decremented instead in that case.
+            if self.start < self.end {
+                self.start += 1;
+            } else {
+                let next_addr = self.start.start_address().as_u64().checked_add(S::SIZE);
+                match next_addr.map(VirtAddr::try_new) {
+                    Some(Ok(addr)) => self.start = Page::containing_address(addr),
+                    _ => self.end -= 1,
+                }
             }
             Some(page)
         } else {
